@@ -18,7 +18,7 @@ use zcash_protocol::consensus::{self, NetworkConstants};
 use {
     alloc::vec::Vec,
     bech32::{
-        Bech32, Hrp,
+        Bech32, Fe32, Hrp,
         primitives::decode::{CheckedHrpstring, CheckedHrpstringError},
     },
     corez::io::{self, Write},
@@ -82,6 +82,29 @@ impl fmt::Display for Bech32DecodeError {
 #[cfg(all(feature = "sapling", feature = "std"))]
 impl std::error::Error for Bech32DecodeError {}
 
+/// Returns the bytes encoded by the data part of a checksum-validated Bech32 string, or
+/// `None` if its final incomplete group is not valid padding.
+///
+/// As in [BIP 173], an incomplete group at the end must be 4 bits or less and all zeroes;
+/// otherwise several distinct strings would decode to the same bytes.
+///
+/// [BIP 173]: https://github.com/bitcoin/bips/blob/master/bip-0173.mediawiki#segwit-address-format
+#[cfg(feature = "sapling")]
+fn checked_payload(parsed: &CheckedHrpstring<'_>) -> Option<Vec<u8>> {
+    let data_part = parsed.data_part_ascii_no_checksum();
+    let padding_bits = (data_part.len() * 5) % 8;
+    if padding_bits >= 5 {
+        return None;
+    }
+    if let Some(last) = data_part.last() {
+        let last = Fe32::from_char(char::from(*last)).ok()?.to_u8();
+        if last & ((1 << padding_bits) - 1) != 0 {
+            return None;
+        }
+    }
+    Some(parsed.byte_iter().collect())
+}
+
 #[cfg(feature = "sapling")]
 fn bech32_decode<T, F>(hrp: &str, s: &str, read: F) -> Result<T, Bech32DecodeError>
 where
@@ -94,7 +117,9 @@ where
             actual: parsed.hrp().as_str().to_owned(),
         })
     } else {
-        read(parsed.byte_iter().collect::<Vec<_>>()).ok_or(Bech32DecodeError::ReadError)
+        checked_payload(&parsed)
+            .and_then(read)
+            .ok_or(Bech32DecodeError::ReadError)
     }
 }
 
